@@ -528,4 +528,176 @@ theorem C11_nst_bitmap_checked_never_panics (rawData : List Nat) (nStakers : Nat
     NstBitmap.parseBalanceChangeWith true rawData nStakers ≠ .panic :=
   scanBits_checked _ _ _ _ _ _
 
+/-! ## joined store keys: the unchecked `keys[1]` after `ParseJoinedKey(iterator.Key())` (ParseJoinedKey splits at
+utils.DelimiterForCombinedKey and, unlike ParseJoinedStoreKey, does not check the number of parts) in
+x/operator IterateOperatorsForAVS and x/assets IterateAssetsForOperator (both reached from the epoch hooks / the slash
+path in BeginBlock). `strings.Split` with a one-byte separator yields (number of separator bytes) + 1 parts
+(`splitOn1_len`), so `keys[1]` is in range as soon as the key contains one separator:
+* IterateOperatorsForAVS iterates `sdk.KVStorePrefixIterator(store, IterateOperatorsForAVSPrefix(avsAddr))` and that
+  prefix is `append([]byte(avsAddr), '/')`: every key the iterator yields starts with it [contract of the prefix
+  iterator] and therefore contains the separator (`C11_site_avs_prefix_key_two_parts`, for every avsAddr and rest);
+* IterateAssetsForOperator iterates with the bare operator address as prefix, so it relies on the keys of the store
+  `KeyPrefixOperatorAssetInfos`: the regenerated writer inventory (`storeKeyWriters_OperatorAssetInfos`: every function
+  that mentions the prefix, with its Set calls) shows two writers, `store.Set(GetJoinedStoreKey(operator, assetID))` and the
+  re-write `store.Set(iterator.Key())` of a key that is already there; over every history of these two operations every key
+  contains the separator (`C11_site_operator_asset_keys_two_parts`).
+The byte model of Split / Join is hand-written (examples below); the statements it mirrors are tied by regenerated
+statement shapes, the separator by `delimiterForCombinedKey`. -/
+
+/-- strings.Split(s, sep) for a one-byte separator, on the bytes of s (`cur` = the part being read, reversed) -/
+def splitOn1 (sep : Nat) : List Nat → List Nat → List (List Nat)
+  | cur, [] => [cur.reverse]
+  | cur, c :: cs => if c = sep then cur.reverse :: splitOn1 sep [] cs else splitOn1 sep (c :: cur) cs
+
+/-- strings.Join(parts, sep) for a one-byte separator -/
+def joinKeys (sep : Nat) : List (List Nat) → List Nat
+  | [] => []
+  | [a] => a
+  | a :: b :: r => a ++ sep :: joinKeys sep (b :: r)
+
+theorem splitOn1_len (sep : Nat) (s cur : List Nat) : (splitOn1 sep cur s).length = s.count sep + 1 := by
+  induction s generalizing cur with
+  | nil => simp [splitOn1]
+  | cons c cs ih =>
+    unfold splitOn1
+    by_cases h : c = sep
+    · subst h; simp [ih]
+    · simp [h, ih]
+
+theorem split_two_of_mem (sep : Nat) (s : List Nat) (h : sep ∈ s) : 2 ≤ (splitOn1 sep [] s).length := by
+  rw [splitOn1_len]
+  have := List.count_pos_iff.mpr h
+  omega
+
+example : splitOn1 47 [] [101, 120, 111, 49, 47, 48, 120, 97, 95, 48, 120, 54, 53] = [[101, 120, 111, 49], [48, 120, 97, 95, 48, 120, 54, 53]] := by decide
+example : splitOn1 47 [] [] = [[]] := by decide
+example : joinKeys 47 [[1, 2], [3]] = [1, 2, 47, 3] := by decide
+
+/-- x/operator/keeper/usd_value.go: IterateOperatorsForAVS: a key that starts with `append([]byte(avsAddr), sep)` splits into
+at least two parts -/
+theorem C11_site_avs_prefix_key_two_parts (sep : Nat) (avsAddr rest : List Nat) :
+    2 ≤ (splitOn1 sep [] ((avsAddr ++ [sep]) ++ rest)).length :=
+  split_two_of_mem sep _ (by simp)
+
+/-- the two writers of the store KeyPrefixOperatorAssetInfos (x/assets/keeper/operator_asset.go, see
+`C11_tie_storeKeyWriters_OperatorAssetInfos`): UpdateOperatorAssetState sets GetJoinedStoreKey(operator, assetID);
+IterateAssetsForOperator (isUpdate) sets the key the iterator is standing on -/
+inductive AssetStoreOp where
+  | update (operator assetID : List Nat)
+  | rewrite (i : Nat)
+
+/-- the keys of the store after one write (as a list: a repeated key does not matter for the property) -/
+def assetStoreStep (sep : Nat) (keys : List (List Nat)) : AssetStoreOp → List (List Nat)
+  | .update o a => joinKeys sep [o, a] :: keys
+  | .rewrite i => match keys[i]? with
+    | some k => k :: keys
+    | none => keys
+
+theorem assetStore_inv (sep : Nat) (ops : List AssetStoreOp) (keys : List (List Nat)) (h : ∀ k ∈ keys, sep ∈ k) :
+    ∀ k ∈ ops.foldl (assetStoreStep sep) keys, sep ∈ k := by
+  induction ops generalizing keys with
+  | nil => exact h
+  | cons op rest ih =>
+    simp only [List.foldl_cons]
+    apply ih
+    cases op with
+    | update o a =>
+      intro k hk
+      simp only [assetStoreStep, List.mem_cons] at hk
+      rcases hk with rfl | hk
+      · simp [joinKeys]
+      · exact h k hk
+    | rewrite i =>
+      simp only [assetStoreStep]
+      split
+      · rename_i k0 hk0
+        intro k hk
+        rcases List.mem_cons.mp hk with rfl | hk
+        · exact h _ (List.mem_of_getElem? hk0)
+        · exact h k hk
+      · exact h
+
+/-- x/assets/keeper/operator_asset.go: IterateAssetsForOperator: over every history of writes every key of the store splits
+into at least two parts, whatever bytes the operator address and the asset id consist of -/
+theorem C11_site_operator_asset_keys_two_parts (sep : Nat) (ops : List AssetStoreOp) :
+    ∀ k ∈ ops.foldl (assetStoreStep sep) [], 2 ≤ (splitOn1 sep [] k).length :=
+  fun k hk => split_two_of_mem sep k (assetStore_inv sep ops [] (by simp) k hk)
+
+theorem C11_tie_delimiter : Gen.delimiterForCombinedKey = "/" ∧ "/".toList.map Char.toNat = [47] := by decide
+
+theorem C11_tie_sliceShape_IterateOperatorsForAVS : ExoVerif.Gen.sliceShape_IterateOperatorsForAVS = [
+  "iterator := sdk.KVStorePrefixIterator(store, operatortypes.IterateOperatorsForAVSPrefix(avsAddr))",
+  "defer iterator.Close()",
+  "for ; iterator.Valid(); iterator.Next() {",
+  "keys, err := assetstype.ParseJoinedKey(iterator.Key())",
+  "if err != nil {",
+  "return err",
+  "}",
+  "k.cdc.MustUnmarshal(iterator.Value(), &optedUSDValues)",
+  "err = opFunc(keys[1], &optedUSDValues)",
+  "if err != nil {",
+  "return err",
+  "}",
+  "if isUpdate {",
+  "store.Set(iterator.Key(), bz)",
+  "}",
+  "}",
+  "return nil"] := by rfl
+
+theorem C11_tie_sliceShape_IterateOperatorsForAVSPrefix : ExoVerif.Gen.sliceShape_IterateOperatorsForAVSPrefix = [
+  "tmp := append([]byte(avsAddr), '/')",
+  "return tmp"] := by rfl
+
+theorem C11_tie_sliceShape_ParseJoinedKey : ExoVerif.Gen.sliceShape_ParseJoinedKey = [
+  "stringList := strings.Split(string(key), utils.DelimiterForCombinedKey)",
+  "return stringList, nil"] := by rfl
+
+theorem C11_tie_sliceShape_GetJoinedStoreKey : ExoVerif.Gen.sliceShape_GetJoinedStoreKey = [
+  "return []byte(strings.Join(keys, utils.DelimiterForCombinedKey))"] := by rfl
+
+theorem C11_tie_sliceShape_IterateAssetsForOperator : ExoVerif.Gen.sliceShape_IterateAssetsForOperator = [
+  "store := prefix.NewStore(ctx.KVStore(k.storeKey), assetstype.KeyPrefixOperatorAssetInfos)",
+  "iterator := sdk.KVStorePrefixIterator(store, []byte(operator))",
+  "defer iterator.Close()",
+  "for ; iterator.Valid(); iterator.Next() {",
+  "k.cdc.MustUnmarshal(iterator.Value(), &amounts)",
+  "keys, err := assetstype.ParseJoinedKey(iterator.Key())",
+  "if err != nil {",
+  "return err",
+  "}",
+  "if assetsFilter != nil {",
+  "if _, ok := assetsFilter[keys[1]]; !ok {",
+  "continue",
+  "}",
+  "}",
+  "err = opFunc(keys[1], &amounts)",
+  "if err != nil {",
+  "return err",
+  "}",
+  "if isUpdate {",
+  "store.Set(iterator.Key(), bz)",
+  "}",
+  "}",
+  "return nil"] := by rfl
+
+theorem C11_tie_storeKeyWriters_OperatorAssetInfos : ExoVerif.Gen.storeKeyWriters_OperatorAssetInfos = [
+  "x/assets/keeper/operator_asset.go:Keeper.AllOperatorAssets:no Set",
+  "x/assets/keeper/operator_asset.go:Keeper.GetOperatorSpecifiedAssetInfo:no Set",
+  "x/assets/keeper/operator_asset.go:Keeper.IsOperatorAssetExist:no Set",
+  "x/assets/keeper/operator_asset.go:Keeper.IterateAssetsForOperator:store.Set(iterator.Key())",
+  "x/assets/keeper/operator_asset.go:Keeper.UpdateOperatorAssetState:store.Set(key) <= key := assetstype.GetJoinedStoreKey(operatorAddr.String(), assetID)"] := by rfl
+
+
+/-! ## x/oracle Cache.AddCache: `panic("no other types are support")` in the `default:` clause of the type switch over
+its `any` parameter. Regenerated: the case types of the switch and, for every call of a method named AddCache in the
+repository (by name; non-test files), the static type of the argument (tools/exofacts/facts_sitecallers.go: a
+conversion `T(x)`, `&T{…}`, or a local defined once by one of those). Every caller passes one of the case types, so
+the default clause is unreachable; a new caller with another (or an unnameable) argument type, or a removed case,
+breaks the theorem. -/
+theorem C11_guard_AddCache_default_unreachable :
+    Gen.typeSwitchCallers_AddCache ≠ [] ∧
+    Gen.typeSwitchCallers_AddCache.all (fun c => Gen.typeSwitchCases_AddCache.contains c.2) = true := by
+  decide
+
+
 end ExoVerif.Blocks
